@@ -57,6 +57,7 @@ def setup():
     # c19 includes the probe's transcript by relative path
     os.makedirs(f'{SCR}/cfgprobe/src')
     shutil.copy('/verif/cfgprobe/src/transcript.rs', f'{SCR}/cfgprobe/src/transcript.rs')
+    shutil.copy('/verif/cfgprobe/src/transcript_alloc.rs', f'{SCR}/cfgprobe/src/transcript_alloc.rs')
     os.makedirs(f'{SCR}/nostdprobe/src')
     shutil.copy('/verif/nostdprobe/src/probe_core.rs', f'{SCR}/nostdprobe/src/probe_core.rs')
     home = f'{SCR}/home'
